@@ -13,3 +13,20 @@ package pages
 //@ func (*PageTree) traversePageNode results (err)
 //@   property C02
 //@   decreases 4097 - depth
+
+// ---- C11: the page height handed to the header/footer filter is this page's height ----
+// (Height is a deterministic function of the page: MediaBox only reads the page dictionary and its ancestors)
+//@ func (*Page) getBox results (box, err)
+//@   property C11, C02
+//@   ensures four_numbers: !err ==> len(box) == 4
+//@   loop 0:
+//@     invariant len(box) == 4 && len(boxArr) == 4
+//@ func (*Page) MediaBox results (box, err)
+//@   property C11
+//@   ensures four_numbers: !err ==> len(box) == 4
+//@ func (*Page) Height results (h, err)
+//@   property C11, C02
+//@   flags pure
+//@ func (*Page) Width results (w, err)
+//@   property C02
+//@   flags pure
